@@ -5,6 +5,7 @@ checks both polarities with z3, follows one and records the alternative.  See DE
 """
 from __future__ import annotations
 
+import os as _os
 import time as _time
 from fractions import Fraction
 
@@ -54,6 +55,10 @@ class Engine:
         self.max_seconds = max_seconds  # wall-clock budget of one exploration (a bound: exceeding it is reported, never a pass)
         self.t0 = None
         self.aborted = 0
+        # second solver: every `cross_every`-th obligation that z3 proves (unsat) is re-asked to cvc5 from z3's own SMT-LIB dump
+        self.cross_every = int(_os.environ.get("VERIF_CROSS_EVERY", "0") or 0)
+        self.cross = {"asked": 0, "agree": 0, "cvc5_unknown": 0, "errors": 0, "disagree": [], "time_s": 0.0, "first_error": None}
+        self._n_proved = 0
         self.solver = z3.Solver()
         self.solver.set("timeout", timeout_ms)
         self.timeout_ms = timeout_ms
@@ -288,9 +293,32 @@ class Engine:
             return r, s.model()
         if r == "unsat":
             self.n_unsat += 1
+            self._n_proved += 1
+            if self.cross_every and self._n_proved % self.cross_every == 1 % self.cross_every:
+                self._cross_check(s)
         else:
             self.n_unknown += 1
         return r, None
+
+    def _cross_check(self, s):
+        """Re-ask cvc5 a query z3 answered `unsat`, from z3's SMT-LIB dump of the very same assertions."""
+        t0 = _time.time()
+        self.cross["asked"] += 1
+        try:
+            txt = s.to_smt2()
+            ans = cvc5_check(txt, 2000)
+        except Exception as e:  # noqa: BLE001 - parser / option errors of the second solver are counted, not fatal
+            self.cross["errors"] += 1
+            if self.cross["first_error"] is None:
+                self.cross["first_error"] = f"{type(e).__name__}: {e}"[:300]
+            ans = None
+        self.cross["time_s"] += _time.time() - t0
+        if ans == "unsat":
+            self.cross["agree"] += 1
+        elif ans == "sat":
+            self.cross["disagree"].append(txt[:4000])
+        elif ans is not None:
+            self.cross["cvc5_unknown"] += 1
 
     def path_model(self, path: Path, extra=()):
         s = z3.Solver()
@@ -313,6 +341,27 @@ class Engine:
         else:
             self.n_unknown += 1
         return None
+
+
+def cvc5_check(smt2_text, tlimit_ms=2000):
+    """check-sat of an SMT-LIB2 script with cvc5 (python wheel); returns 'sat' | 'unsat' | 'unknown'."""
+    import cvc5
+
+    slv = cvc5.Solver()
+    slv.setOption("tlimit-per", str(tlimit_ms))
+    slv.setLogic("ALL")
+    p = cvc5.InputParser(slv)
+    p.setStringInput(cvc5.InputLanguage.SMT_LIB_2_6, smt2_text, "query")
+    sm = p.getSymbolManager()
+    res = "unknown"
+    while True:
+        cmd = p.nextCommand()
+        if cmd.isNull():
+            break
+        out = cmd.invoke(slv, sm).strip()
+        if out in ("sat", "unsat", "unknown"):
+            res = out
+    return res
 
 
 # ------------------------------------------------------------------------------------- terms
@@ -707,10 +756,11 @@ def numden(t):
 class SymNorm(SymReal):
     """Euclidean norm of a symbolic vector: comparisons are decided on the squares (no sqrt)."""
 
-    __slots__ = ("sq",)
+    __slots__ = ("sq", "one")
 
-    def __init__(self, sq_term):
+    def __init__(self, sq_term, one=None):
         self.sq = sq_term
+        self.one = one  # norm of a one-component vector [x]: |x|, compared without squaring (one degree lower for the solver)
         # the term itself is an unconstrained uf_sqrt application: mxlpy only ever compares a norm with
         # a tolerance, and comparisons are decided on the squares below (no axiom needed, no sqrt)
         SymReal.__init__(self, uf("sqrt")(sq_term))
@@ -748,6 +798,15 @@ class SymNorm(SymReal):
         ot = to_term(o)
         if ot is None:
             return NotImplemented
+        if self.one is not None:
+            # |n/d| < o  <=>  o > 0 and |n| < o |d|   (d != 0 is the engine's standing assumption on denominators)
+            n, d = numden(z3.simplify(self.one))
+            an = z3.If(n >= 0, n, -n)
+            ad = z3.If(d >= 0, d, -d)
+            lhs, rhs = an, ot * ad
+            if less:
+                return SymBool(z3.And(ot > 0 if strict else ot >= 0, lhs < rhs if strict else lhs <= rhs))
+            return SymBool(z3.Or(ot < 0, lhs > rhs if strict else lhs >= rhs))
         # clear denominators: sq = n/d with d a product of (non-zero) denominators; compare n*d with o^2*d^2
         n, d = numden(z3.simplify(self.sq))
         lhs, rhs = (n * d, ot * ot * d * d) if not z3.eq(d, z3.RealVal(1)) else (self.sq, ot * ot)
